@@ -35,10 +35,11 @@ type c19Track struct {
 	media     string // argument given to AddEmptyTrack
 	timescale uint32
 	lang      string
-	sps       []byte       // AVC: the supplied sequence parameter set (profile_idc seeded within the high family)
-	w, h      int          // AVC: the luma picture size the supplied SPS codes
-	dec3      *mp4.Dec3Box // EC-3: configuration supplied as a struct (nil: the fixed box bytes)
-	chroma    int          // AVC: chroma_format_idc and bit depths (minus 8) the supplied SPS codes
+	sps       []byte            // AVC: the supplied sequence parameter set (profile_idc seeded within the high family)
+	w, h      int               // AVC: the luma picture size the supplied SPS codes
+	dec3      *mp4.Dec3Box      // EC-3: configuration supplied as a struct (nil: the fixed box bytes)
+	hevc      *work.HEVCSPSInfo // HEVC: what a harness-written SPS codes (nil for the fixed test vector)
+	chroma    int               // AVC: chroma_format_idc and bit depths (minus 8) the supplied SPS codes
 	bdl, bdc  int
 	desc      string // avc1 avc3 hvc1 hev1 aac ac3 ec3 wvtt stpp none
 	includePS bool
@@ -226,7 +227,7 @@ func c19Build(r *sim.Run) (*mp4.InitSegment, []c19Track, error) {
 			}
 		case 8:
 			tr.media, tr.desc = []string{"wvtt", "text"}[t.Draw(2)], "wvtt"
-			tr.str1 = []string{"", "WEBVTT", "WEBVTT\nRegion: id=a"}[t.Draw(3)]
+			tr.str1 = []string{"", "WEBVTT", "WEBVTT\nRegion: id=a", "WEBVTT\n", "WEBVTT\r\n", "WEBVTT - title\nRegion: id=b\r\n\r\n"}[t.Draw(6)]
 		default:
 			tr.media, tr.desc = []string{"stpp", "subtitle"}[t.Draw(2)], "stpp"
 			tr.str1 = []string{"", "http://www.w3.org/ns/ttml", "urn:x a b"}[t.Draw(3)]
@@ -252,7 +253,9 @@ func c19Build(r *sim.Run) (*mp4.InitSegment, []c19Track, error) {
 			tr.sps, tr.w, tr.h = c19HevcSPS, 960, 540
 			if t.Chance(400) {
 				var d string
-				tr.sps, tr.w, tr.h, d = work.DrawHEVCSPS(t)
+				var hi work.HEVCSPSInfo
+				tr.sps, tr.w, tr.h, hi, d = work.DrawHEVCSPS(t)
+				tr.hevc = &hi
 				r.Logf("HEVC SPS written by the harness: %s", d)
 				r.Probe("hevc-sps-generated")
 			}
@@ -463,6 +466,18 @@ func c19CheckBytes(r *sim.Run, data []byte, model []c19Track) {
 					if int(tl[0]&3) != tr.chroma || int(tl[1]&7) != tr.bdl || int(tl[2]&7) != tr.bdc {
 						r.Violate("c19-codec-config", "%s: avcC says chroma_format %d, bit depths 8+%d/8+%d; the supplied SPS codes chroma_format_idc %d, bit depths 8+%d/8+%d", who, tl[0]&3, tl[1]&7, tl[2]&7, tr.chroma, tr.bdl, tr.bdc)
 					}
+				}
+			}
+			if tr.desc[0] == 'h' && tr.hevc != nil {
+				// HEVCDecoderConfigurationRecord (ISO/IEC 14496-15 8.3.3.1.2): byte 1 = profile_space(2) tier(1) profile_idc(5),
+				// byte 12 = general_level_idc, bytes 16..18 = chroma_format_idc, bit_depth_luma_minus8, bit_depth_chroma_minus8
+				// (low bits behind reserved ones): they describe the supplied SPS
+				if len(cb) < 23 {
+					r.Violate("c19-codec-config", "%s: hvcC of %d bytes", who, len(cb))
+				} else if hi := tr.hevc; int(cb[1]&0x1f) != hi.Profile || int(cb[1]>>5&1) != hi.Tier || int(cb[12]) != hi.Level ||
+					int(cb[16]&3) != hi.Chroma || int(cb[17]&7) != hi.BitDepthLuma8 || int(cb[18]&7) != hi.BitDepthChroma8 {
+					r.Violate("c19-codec-config", "%s: hvcC says tier %d profile %d level %d chroma_format %d bit depths 8+%d/8+%d; the supplied SPS codes tier %d profile %d level %d chroma_format_idc %d bit depths 8+%d/8+%d",
+						who, cb[1]>>5&1, cb[1]&0x1f, cb[12], cb[16]&3, cb[17]&7, cb[18]&7, hi.Tier, hi.Profile, hi.Level, hi.Chroma, hi.BitDepthLuma8, hi.BitDepthChroma8)
 				}
 			}
 			if tr.desc[0] == 'a' { // profile, compatibility, level come from SPS bytes 1..3
